@@ -131,6 +131,7 @@ pub fn run(tier: Tier) -> i32 {
                     }
                     return;
                 }
+                rep.outcome(hash_f64s(&h2[..h2.len().min(64)]));
                 let a = lsp_to_a(set);
                 let want: Vec<f64> = grid.iter().map(|w| k.ln() - *stage as f64 * poly_logmag(&a, warp(*w, *alpha))).collect();
                 let peak = want.iter().cloned().fold(f64::NEG_INFINITY, f64::max);
